@@ -71,8 +71,25 @@ class Tr:
             return n.id
         if isinstance(n, ast.Attribute):
             b = self.dotted(n.value)
+            if b is not None and isinstance(n.value, ast.Name) and b in getattr(self, "alias", {}):
+                b = self.alias[b]             # a local name bound to the object stored in an attribute of self
             return None if b is None else b + "." + n.attr
         return None
+
+    def canon_src(self, n) -> str:
+        """source text of an expression with aliased local names spelled as the attribute of self they stand for"""
+        al = getattr(self, "alias", {})
+        if not al or not any(isinstance(x, ast.Name) and x.id in al for x in ast.walk(n)):
+            return ast.unparse(n)
+        import copy
+
+        class A(ast.NodeTransformer):
+            def visit_Attribute(self_, node):
+                if isinstance(node.value, ast.Name) and node.value.id in al:
+                    return ast.Attribute(value=ast.parse(al[node.value.id], mode="eval").body, attr=node.attr, ctx=node.ctx)
+                return self_.generic_visit(node)
+
+        return ast.unparse(A().visit(copy.deepcopy(n)))
 
     def typ(self, n) -> str:
         d = self.dotted(n)
@@ -113,7 +130,7 @@ class Tr:
         return self.raw(n)
 
     def raw(self, n) -> str:
-        src = ast.unparse(n)
+        src = self.canon_src(n)
         if src in self.opaque:
             return self.opaque[src]
         d = self.dotted(n)
@@ -189,6 +206,9 @@ class Tr:
                 return self.raw(a) if isinstance(op, ast.IsNot) else f"(!{self.raw(a)})"      # an Optional object the spec represents by its presence
             if isinstance(op, (ast.Is, ast.IsNot)) and isinstance(b, ast.Constant) and b.value is None:
                 return f"({self.raw(a)}).{'isNone' if isinstance(op, ast.Is) else 'isSome'}"
+            if isinstance(op, (ast.In, ast.NotIn)) and isinstance(a, ast.Name) and a.id in self.spec.get("contains_names", {}):
+                t = f"({self.spec['contains_names'][a.id]} {self.e(b)})"          # `SEP in data` for a named byte sequence
+                return t if isinstance(op, ast.In) else f"(!{t})"
             if isinstance(op, (ast.In, ast.NotIn)) and self.typ(b) == "dict":
                 t = f"(dictGet {self.e(b)} {self.e(a)}).isSome"
                 return t if isinstance(op, ast.In) else f"(!{t})"
@@ -258,6 +278,9 @@ class Tr:
                     return self.e(kws[next(iter(fields))])
                 return "({ " + ", ".join(f"{fields[k]} := {self.e(kws[k])}" for k in fields) + f" }} : {lean})"
             raise Unsupported(f"call {src}")
+        if isinstance(n, ast.Subscript) and isinstance(n.slice, ast.Slice) and n.slice.lower is None and n.slice.step is None and n.slice.upper is not None \
+                and self.typ(n.slice.upper) == "num" and self.spec.get("slices"):
+            return f"(({self.e(n.value)}).take {self.e(n.slice.upper)})"           # x[:n] for a non-negative n
         if isinstance(n, ast.Subscript) and isinstance(n.slice, ast.Slice) and n.slice.upper is None and n.slice.step is None and n.slice.lower is not None:
             return f"(({self.e(n.value)}).drop {self.e(n.slice.lower)})"
         if isinstance(n, ast.Subscript) and isinstance(n.slice, ast.UnaryOp) and isinstance(n.slice.op, ast.USub) \
@@ -289,7 +312,9 @@ class Tr:
         if t in ("str", "list") and not isinstance(n, (ast.Compare, ast.BoolOp, ast.UnaryOp, ast.Call)):
             return f"(!({self.e(n)}).isEmpty)"
         if t == "obj" and self.dotted(n) in self.spec.get("truthy_objs", ()):
-            return "true"          # an instance of a class with neither __bool__ nor __len__
+            return "true"
+        if t == "optobj" and self.dotted(n) is not None and self.dotted(n) in self.spec.get("truthy_objs", ()):
+            return f"({self.raw(n)}).isSome"          # Optional[instance of a class with neither __bool__ nor __len__]          # an instance of a class with neither __bool__ nor __len__
         return self.e(n)
 
     # ---- statements --------------------------------------------------------------------------
@@ -465,7 +490,7 @@ class Tr:
         op = self._world_op(s)
         if op is not None:
             return self.world_stmt(op[0], op[1], op[2], rest, ind)
-        if isinstance(s, ast.Try) and self.spec.get("world_ops"):
+        if isinstance(s, ast.Try) and self.spec.get("world_ops") and s.finalbody:
             return self.try_stmt(s, rest, ind)
         if isinstance(s, ast.With) and self.spec.get("with_ctx"):
             return self.with_stmt(s, rest, ind)
@@ -517,6 +542,14 @@ class Tr:
             a, b = (x.id for x in s.targets[0].elts)
             self.types[a] = self.types[b] = "str"
             return f"{ind}let ({a}, {b}) := Url.cutAt '{s.value.args[0].value}' {self.e(s.value.func.value)}\n" + self.block(rest, ind)
+        if (isinstance(s, ast.Assign) and len(s.targets) == 1 and isinstance(s.targets[0], ast.Tuple) and len(s.targets[0].elts) == 2
+                and all(isinstance(x, ast.Name) for x in s.targets[0].elts) and isinstance(s.value, ast.Call) and isinstance(s.value.func, ast.Attribute)
+                and s.value.func.attr == "split" and len(s.value.args) == 2 and isinstance(s.value.args[0], ast.Name) and s.value.args[0].id in self.spec.get("split_names", {})
+                and isinstance(s.value.args[1], ast.Constant) and s.value.args[1].value == 1):
+            # `a, b = x.split(SEP, 1)` behind `SEP in x`: before / after the first occurrence
+            a, b = (x.id for x in s.targets[0].elts)
+            self.types[a] = self.types[b] = "str"
+            return f"{ind}let ({a}, {b}) := {self.spec['split_names'][s.value.args[0].id]} {self.e(s.value.func.value)}\n" + self.block(rest, ind)
         if isinstance(s, ast.Assign) and len(s.targets) == 1 and isinstance(s.value, ast.Call) and self.dotted(s.value.func) in self.spec.get("raising_funcs", {}) \
                 and isinstance(s.targets[0], ast.Name):
             fn, wrap = self.spec["raising_funcs"][self.dotted(s.value.func)]
@@ -529,10 +562,22 @@ class Tr:
             d = self.dotted(t)
             if d is None:
                 raise Unsupported("assignment target")
+            if d in self.spec.get("assign_map", {}):
+                fn, keep = self.spec["assign_map"][d]
+                return f"{ind}let {self.state} := {fn} {self.state}{(' ' + self.e(s.value)) if keep else ''}\n" + self.block(rest, ind)
             if d.startswith("self."):
-                if not self.state:
+                if not self.state or d.count(".") != 1:
                     raise Unsupported("mutation of self")
-                return f"{ind}let {self.state} := {{ {self.state} with {d[5:]} := {self.e(s.value)} }}\n" + self.block(rest, ind)
+                val = self.e(s.value)
+                if isinstance(s.value, ast.Name) and self.types.get(s.value.id) == "obj" and self.spec.get("aliases"):
+                    self.alias = dict(getattr(self, "alias", {}))
+                    self.alias[s.value.id] = d
+                isnone = isinstance(s.value, ast.Constant) and s.value.value is None
+                if self.types.get(d) == "bool" and isnone:
+                    val = "false"                       # an Optional attribute the spec represents by its presence
+                elif self.types.get(d, "").startswith("opt") and not isnone and not self.typ(s.value).startswith("opt"):
+                    val = f"some ({val})"
+                return f"{ind}let {self.state} := {{ {self.state} with {d[5:]} := {val} }}\n" + self.block(rest, ind)
             vt = self.typ(s.value)
             # an Optional value keeps its Option type when it is only bound to a name
             val = self.raw(s.value) if vt.startswith("opt") and self.dotted(s.value) is not None else self.e(s.value)
@@ -616,6 +661,41 @@ class Tr:
                 self.rename, self.types = saved
                 return (f"{ind}match ({self.e(s.iter)}).findSome? (fun {v} =>\n{body}) with\n{ind}| some r => r\n{ind}| none =>\n" + self.block(rest, ind + "  "))
             raise Unsupported("for loop shape")
+        if (self.spec.get("try_except") and isinstance(s, ast.Try) and len(s.body) == 1 and isinstance(s.body[0], ast.Assign) and len(s.body[0].targets) == 1
+                and len(s.handlers) == 1 and not s.orelse and not s.finalbody and isinstance(s.body[0].value, ast.Call)):
+            # `try: x = f(args)  except E [as e]: <handler that ends the function>` with f a call that may raise E
+            v0, tgt, h = s.body[0].value, s.body[0].targets[0], s.handlers[0]
+            etype = ast.unparse(h.type) if h.type is not None else None
+            if isinstance(v0.func, ast.Attribute) and v0.func.attr == "decode" and [ast.unparse(a) for a in v0.args] == ["'utf-8'"] and not v0.keywords:
+                fn, args, want, rtype = self.spec["decode_utf8"], [v0.func.value], "UnicodeDecodeError", "str"
+            elif self.dotted(v0.func) in self.spec.get("raising_calls", {}) and not v0.keywords:
+                fn, want, rtype = self.spec["raising_calls"][self.dotted(v0.func)]
+                args = list(v0.args)
+            else:
+                raise Unsupported(f"try around {ast.unparse(v0)[:40]}")
+            if etype != want:
+                raise Unsupported(f"except {etype} around {ast.unparse(v0)[:40]}")
+            hb = list(h.body)
+            if not hb or not isinstance(hb[-1], (ast.Return, ast.Raise)):
+                hb = hb + list(rest)          # a handler that completes continues after the try statement
+            saved = (dict(self.rename), dict(self.types))
+            if h.name:
+                self.types[h.name] = "str"
+            err = self.block(hb, ind + "  ")
+            self.rename, self.types = saved
+            argstr = "".join(" " + self.e(a) for a in args)
+            d = self.dotted(tgt)
+            if isinstance(tgt, ast.Name):
+                self.types[tgt.id] = rtype
+                okb = self.block(rest, ind + "  ")
+                pat = tgt.id
+            elif d is not None and d.startswith("self.") and self.state:
+                pat = "v'"
+                val = f"some {pat}" if self.types.get(d, "").startswith("opt") else pat
+                okb = f"{ind}  let {self.state} := {{ {self.state} with {d[5:]} := {val} }}\n" + self.block(rest, ind + "  ")
+            else:
+                raise Unsupported("target of a guarded call")
+            return f"{ind}match {fn}{argstr} with\n{ind}| .error {h.name or '_'} =>\n{err}\n{ind}| .ok {pat} =>\n{okb}"
         if isinstance(s, ast.Try) and len(s.body) == 1 and isinstance(s.body[0], ast.Assign) and len(s.handlers) == 1 and not s.orelse and not s.finalbody:
             call = ast.unparse(s.body[0].value)
             v0 = s.body[0].value
@@ -643,9 +723,11 @@ class Tr:
         for n in ast.walk(s):
             if isinstance(n, ast.Call):
                 hn = self._helper_name(n)
+                banned = (ast.For, ast.While, ast.With, ast.Await) + (() if self.spec.get("inline_try") else (ast.Try,))
                 if hn is not None and self.dotted(n.func) not in self.spec.get("funcs", {}) and ast.unparse(n) not in self.opaque \
+                        and self.dotted(n.func) not in self.spec.get("world_ops", {}) \
                         and ast.unparse(n) not in self.spec.get("raising", {}) and self._find_helper(hn) is not None \
-                        and not any(isinstance(x, (ast.For, ast.While, ast.Try, ast.With, ast.Await)) for x in ast.walk(self._find_helper(hn))):
+                        and not any(isinstance(x, banned) for x in ast.walk(self._find_helper(hn))):
                     return n
         return None
 
@@ -658,11 +740,17 @@ class Tr:
             return self._splice(more, cont, tmp)
         if isinstance(st, ast.Return):
             pre = [ast.Assign(targets=[ast.Name(id=tmp, ctx=ast.Store())], value=st.value, lineno=0)] if tmp and st.value is not None else []
-            return pre + list(cont)
+            # nothing follows the call in the caller: returning from the helper ends the caller too (kept explicit, so that a
+            # handler / branch ending in it is not mistaken for one that falls through)
+            return pre + (list(cont) if cont else [ast.Return(value=None)])
         if isinstance(st, ast.Raise):
             return [st]
         if isinstance(st, ast.If) and any(isinstance(x, ast.Return) for x in ast.walk(st)):
             return [ast.If(test=st.test, body=self._splice(list(st.body) + more, cont, tmp), orelse=self._splice(list(st.orelse) + more, cont, tmp))]
+        if isinstance(st, ast.Try) and not st.orelse and not st.finalbody and not any(isinstance(x, ast.Return) for b in st.body for x in ast.walk(b)):
+            # a `return` in a handler of the helper continues the caller
+            hs = [ast.ExceptHandler(type=h.type, name=h.name, body=self._splice(list(h.body), cont, tmp)) for h in st.handlers]
+            return [ast.Try(body=st.body, handlers=hs, orelse=[], finalbody=[])] + self._splice(more, cont, tmp)
         return [st] + self._splice(more, cont, tmp)
 
     def _inline(self, s, call, rest):
@@ -1052,6 +1140,23 @@ SPECS = [
     _tofu_spec("tofuRevoke", "revoke", "def tofuRevoke {W H : Type} (D : Misc.SqlEnv W H) (w : W) (hostname : H) (port : Nat) : W × Except Misc.DbErr Bool :=", "W × Except Misc.DbErr Bool"),
     _tofu_spec("tofuRevokeHost", "revoke_by_hostname", "def tofuRevokeHost {W H : Type} (D : Misc.SqlEnv W H) (w : W) (hostname : H) : W × Except Misc.DbErr Nat :=", "W × Except Misc.DbErr Nat"),
     _tofu_spec("tofuClear", "clear", "def tofuClear {W H : Type} (D : Misc.SqlEnv W H) (w : W) : W × Except Misc.DbErr Nat :=", "W × Except Misc.DbErr Nat"),
+    dict(name="dataReceived", file="server/protocol.py", cls="GeminiServerProtocol", func="data_received", state="s", thread="s", implicit_return=True,
+         header="def dataReceived (E : Srv.DrEnv) (s : Srv.PState) (data : List Nat) : Srv.PState × Unit :=",
+         inline_try=True, try_except=True, slices=True, aliases=True, decode_utf8="Srv.decodeUtf8E",
+         raising_calls={"TitanRequest.from_line": ("E.titanFromLine", "ValueError", "obj")},
+         contains_names={"CRLF": "Srv.hasCRLF"}, split_names={"CRLF": "Srv.cutCRLF"},
+         rename={"MAX_REQUEST_SIZE": "Srv.maxRequest", "self.titan_request.size": "(Srv.PState.titanSize s)", "self.upload_handler": "E.upload",
+                 "StatusCode.BAD_REQUEST": "59", "StatusCode.PERMANENT_FAILURE": "50"},
+         types={"self.buffer": "str", "data": "str", "self.url_line_received": "bool", "self._request_dispatched": "bool", "self._response_sent": "bool",
+                "self.awaiting_titan_content": "bool", "self.titan_request": "optobj", "self.timeout_handle": "bool", "self.titan_request.size": "num",
+                "self.upload_handler": "bool", "MAX_REQUEST_SIZE": "num", "url": "str", "url_line": "str", "remaining": "str", "client_cert": "bool", "client_cert_h": "bool"},
+         truthy_objs=("self.titan_request",),
+         opaque={"self.titan_request.is_delete()": "(Srv.PState.isDelete s)", "self.get_peer_certificate()": "E.peerCert"},
+         funcs={"get_certificate_fingerprint": "Srv.fpStub"},
+         assign_map={"self.titan_request.content": ("Srv.PState.setContent", True), "self.titan_request.client_cert": ("Srv.PState.noteCert", False),
+                     "self.titan_request.client_cert_fingerprint": ("Srv.PState.noteCert", False)},
+         world_ops={"self._send_error_response": dict(fn="E.sendError", ret=None), "self._handle_gemini_request": dict(fn="E.geminiRequest", ret=None),
+                    "self._process_titan_upload": dict(fn="E.processUpload", ret=None), "self.timeout_handle.cancel": dict(fn="Srv.PState.cancelTimer", ret=None)}),
     dict(name="parseUrl", file="utils/url.py", cls=None, func="parse_url", mode="except", numfmt="Url.natToStr",
          header=("def parseUrl (url scheme : Url.Str) (hostname username password : Option Url.Str) (fragment : Url.Str) (splitR : Except Url.Err Unit)\n"
                  "    (portR : Except Url.Err (Option Nat)) (path netloc query : Url.Str) : Except Url.Err Url.Parsed :="),
@@ -1100,6 +1205,7 @@ PRELUDE = {
     "findRule": (["NauyacaVerif.Mw.Cert"], []),
     "uploadGate": ([], []),
     "followRedirects": (["NauyacaVerif.Cl.Redirect"], []),
+    "dataReceived": (["NauyacaVerif.Srv.PState"], []),
     "getSingleTail": (["NauyacaVerif.Cl.TofuEnv"], []), "uploadTail": (["NauyacaVerif.Cl.TofuEnv"], []),
     "tofuVerify": (["NauyacaVerif.Misc.SqlEnv"], []), "tofuTrust": (["NauyacaVerif.Misc.SqlEnv"], []), "tofuRevoke": (["NauyacaVerif.Misc.SqlEnv"], []),
     "tofuRevokeHost": (["NauyacaVerif.Misc.SqlEnv"], []), "tofuClear": (["NauyacaVerif.Misc.SqlEnv"], []),
